@@ -100,7 +100,7 @@ func v1SameMemberTwice(d v1.Diff) bool {
 	return false
 }
 
-var c17OptSets = []string{"list", "list", "set", "mset", "setkeys:id", "set+setkeys:id", "merge", "set+mset", "mset+set", "set+merge", "mset+merge"}
+var c17OptSets = []string{"list", "list", "set", "mset", "setkeys:id", "set+setkeys:id", "merge", "set+mset", "mset+set", "set+merge", "mset+merge", "mset+setkeys:id"}
 
 func checkC17(c PairCase, r *rec.Rec) error {
 	av, err := val.Parse(c.A)
@@ -466,7 +466,19 @@ func genC18(t *rapid.T) PairCase {
 		pc.Opts = "merge"
 		return pc
 	}
-	a, b, _ := genListPairNasty(t)
+	a, b, p18 := genListPairNasty(t)
+	if gen.Chance(t, "pathTwins", 6) {
+		a, b = gen.PathTwins(t, a, b, p18)
+	}
+	if gen.Chance(t, "bigNumbers", 5) {
+		// objects as old / new values that hold numbers at the edge of int64
+		big := gen.Pick(t, "bigNumber", []float64{9223372036854775808, 9223372036854775807, 1e19, -9223372036854775808, 4611686018427387904})
+		a = map[string]val.V{"o": map[string]val.V{"n": big, "m": 1.0}, "keep": a}
+		b = map[string]val.V{"o": gen.Pick(t, "bigNew", []val.V{5.0, map[string]val.V{"n": big}, []val.V{big}}), "keep": b}
+		if gen.Chance(t, "bigSwap", 50) {
+			a, b = b, a
+		}
+	}
 	if gen.Chance(t, "integerTwins", 6) {
 		// an object that holds a key spelled like a plain integer and gains,
 		// loses or changes a member spelled like the same integer differently
